@@ -4,7 +4,7 @@ the failing-input search.  It is not part of the trusted base of any theorem: th
 that the implementation is compared with is the OCaml extraction of the Coq definitions."""
 
 PLAIN, FIXED, VARYING = 0, 1, 2
-TBLOB, TUINT, TSINT, TU8, TS8, TBYTE, TTRK, TTRKC, TTRKMA, TTRKCA, TFLT, TTRKCC, TTRKMC = range(13)
+TBLOB, TUINT, TSINT, TU8, TS8, TBYTE, TTRK, TTRKC, TTRKMA, TTRKCA, TFLT, TTRKCC, TTRKMC, TSW = range(14)
 
 
 class Param:
@@ -17,7 +17,7 @@ class Param:
         return (self.kind, self.size, self.align, self.ty)
 
     def __repr__(self):
-        return "%s%s%d@%d" % ("PFV"[self.kind], "BUSusyTCMAFcm"[self.ty], self.size, self.align)
+        return "%s%s%d@%d" % ("PFV"[self.kind], "BUSusyTCMAFcmw"[self.ty], self.size, self.align)
 
 
 def align_up(x, a):
